@@ -119,3 +119,23 @@ Proof.
   - congruence.
   - apply ready_implies_join_or_bypass. exact H.
 Qed.
+
+(* a StartStage for a synthetic (before / after) stage whose parent is NOT_STARTED in the state this handling read - the
+   parent was re-armed by a jump after the message was queued - writes no stage and queues nothing: the message is only
+   marked processed.  Hence no StartStage handling takes a child out of NOT_STARTED ahead of its parent. *)
+Theorem start_stage_child_waits_for_parent s id i k st p ps :
+  get_stage s i = Some st -> y_parent (s_syn st) = Some p -> get_stage s p = Some ps -> s_status ps = NOT_STARTED ->
+  handle_start_stage s id i k = ok [c_mark id].
+Proof.
+  intros Hs Hp Hps Hn. unfold handle_start_stage. rewrite Hs.
+  unfold parent_not_started. rewrite Hp, Hps, Hn. reflexivity.
+Qed.
+
+Corollary start_stage_child_started_under_started_parent s id i k st p ps j st' :
+  get_stage s i = Some st -> y_parent (s_syn st) = Some p -> get_stage s p = Some ps ->
+  In (j, st') (puts (h_commits (handle_start_stage s id i k))) ->
+  s_status ps <> NOT_STARTED.
+Proof.
+  intros Hs Hp Hps Hin Hn.
+  rewrite (start_stage_child_waits_for_parent s id i k st p ps Hs Hp Hps Hn) in Hin. simpl in Hin. exact Hin.
+Qed.
